@@ -431,6 +431,8 @@ RULES.update({
 
 RULES['C06'] = 'hostile inputs per type in 8 classes (random bytes, byte-mutated valid encodings, truncations, adversarial length varints incl. wrap-around values, partial map entries / nested cuts, random records with arbitrary wire types, over-long varints, group tags) x 4 entry points (Unmarshal, Merge+DiscardUnknown, AllowPartial, direct ProtoMethods().Unmarshal with zero Depth), plus nesting chains of depth 100..1000000 along every recursive field cycle; non-trivial = non-empty input; distinct by type+input bytes'
 
+RULES['C07'] = 'encodings (with unknown records, bytes/string in every position) placed in mmap pages flush against a PROT_NONE guard page; pages are read-only during Unmarshal, overwritten and unmapped afterwards while the message is fingerprinted and re-marshalled; struct fingerprints (incl. nil-vs-empty, sizeCache, oneof wrapper) around 17 read-only operations, also on structs with empty-but-allocated containers; Marshal outputs of 6 entry points scribbled / message byte slices flipped; non-trivial = non-empty input; distinct by type+input'
+
 ASSUME = [
     'google.golang.org/protobuf v1.34.0 dynamicpb + proto (reflection codec) is the reference; it and the harness spec codec must agree before a case is decided',
     'the plain-Go-reflection struct reader (struct tags -> field numbers) reads generated structs correctly',
@@ -438,7 +440,7 @@ ASSUME = [
 ]
 
 
-FLOORS = {'C01': (500, 200), 'C02': (500, 200), 'C04': (500, 200), 'C05': (100, 30), 'C03': (500, 200), 'C14': (500, 100)}
+FLOORS = {'C07': (500, 200), 'C01': (500, 200), 'C02': (500, 200), 'C04': (500, 200), 'C05': (100, 30), 'C03': (500, 200), 'C14': (500, 100)}
 
 
 def check_engine(prop, tier, seed, repo, keep):
@@ -596,7 +598,7 @@ def gen_summary(w):
 CHECKS = {
     'C01': check_engine, 'C02': check_engine, 'C04': check_engine, 'C05': check_engine,
     'C03': check_engine, 'C14': check_engine,
-    'C06': check_total,
+    'C06': check_total, 'C07': check_engine,
 }
 
 
